@@ -1105,8 +1105,12 @@ fn main() {
     // the arrays with heap-owning elements are decided under a small, fixed address-space limit of their own and a
     // generous time limit: what they do must not depend on how much memory or speed the machine happens to have
     // (under the ordinary worker limit a slow machine is still allocating when the time limit strikes)
-    let owned: Vec<Input> = inputs.iter().filter(|i| i.family == "huge-owned-elements").cloned().collect();
-    inputs.retain(|i| i.family != "huge-owned-elements");
+    // (the family name carries the "stmt:" prefix of `statement_inputs`: until round 3 this filter compared with the
+    // bare name, matched nothing, and the inputs ran under the ordinary limits — the machine-dependent time-out that
+    // vp check #4 and #7 reported)
+    let owned: Vec<Input> = inputs.iter().filter(|i| i.family == "stmt:huge-owned-elements").cloned().collect();
+    inputs.retain(|i| i.family != "stmt:huge-owned-elements");
+    assert!(!owned.is_empty(), "the huge-owned-elements family must be routed to its own workers");
     let mut results = run_parallel(&inputs, limit, "r");
     let owned_results = run_in_workers(&owned, Duration::from_secs(120), "owned", 1 << 20);
     inputs.extend(owned);
